@@ -113,6 +113,22 @@ def f1(ctx, rep):
         for c in f['calls']:
             if c.get('f') in ('insert', 'push', 'clear', 'extend', 'remove', 'retain') and re.match(r'config\b', vt.show(c.get('recv'))) and f['name'] != 'override_configuration':
                 rep.fail('F2', f"{f['name']}:{c['f']}", f"{f['qual']} mutates {vt.show(c.get('recv'))[:40]} — file-only settings (type mappings, decorators, constraints, acronyms) must be applied unchanged", {'file': f['file'], 'line': c.get('line')})
+    # the same inventory on resolved MIR places: methods on Config, nested helpers taking `&mut config.x.y`, whole-section moves
+    from .. import cg
+    prog = cg.Program(ctx.mirq('all'))
+    muts = wiring.config_mutations(ctx, prog)
+    rep.floor('F2', 'writes to Config seen in MIR (override_configuration as positive control)', len([m for m in muts if m[0].endswith('override_configuration')]), 7)
+    seen2 = set()
+    for fid, owner, fname, st, file, line in muts:
+        root = fid.split('::{closure')[0]
+        if root.endswith('override_configuration'):
+            continue
+        key = f"{root.split('::')[-1]}:{owner.split('::')[-1]}.{fname}"
+        if key in seen2:
+            continue
+        seen2.add(key)
+        n += 1
+        rep.fail('F2', key, f"{fid} modifies {owner.split('::')[-1]}.{fname} (`{st[:80]}`): a value read from typeshare.toml may only be replaced by its command-line option in override_configuration — file-only settings (type mappings, decorators, constraints, acronyms) must reach the backend unchanged", {'file': file, 'line': line})
     if n == 0:
         rep.ok('F2', 'no-other-config-writes', 'Config is only written by override_configuration')
     # call order in generate_types: load_config → override_configuration → language()
